@@ -257,6 +257,15 @@ pub fn cell_pool(seed: u64) -> Vec<Cell> {
     for &(n, p) in &[(1000u64, 0.25), (1000, 0.75), (64, 0.375), (64, 0.625), (1 << 20, 0.5)] {
         pool.push(Cell::newi(Fam::Binomial, &[n], &[p]));
     }
+    // rare-event cells: Dirichlet<f32> on the gamma path whose variates can all underflow in one draw
+    pool.push(Cell::new(Fam::Dirichlet, Ft::F32, &[0.101, 0.002, 0.002]));
+    pool.push(Cell::new(Fam::Dirichlet, Ft::F32, &[0.11, 0.001]));
+    // pairs of the same family with different parameters in both method regimes
+    for ft in [Ft::F32, Ft::F64] {
+        for l in [13.0, 35.0, 400.0, 1000.0, 5.0] {
+            pool.push(Cell::new(Fam::Poisson, ft, &[l]));
+        }
+    }
     // clone_from partners: same type and length, different totals
     for fam in crate::families::ALIAS_INT.iter().chain(crate::families::TREE_INT.iter()) {
         pool.push(Cell::newi(*fam, &[1, 2, 3, 4], &[]));
@@ -369,6 +378,60 @@ pub fn run(ctx: &Ctx) {
                 report(ctx, &s, &sym, &msg);
             }
         }
+    }
+    // same-family pairs with run lengths: hidden per-thread / per-process state keyed on the parameters shows up
+    // as history dependence when one object is sampled many times right after another one
+    for (_, v) in by_type.iter() {
+        if v.len() < 2 {
+            continue;
+        }
+        for k in 0..(v.len() - 1).min(4) {
+            let (a, b) = (v[k].clone(), v[v.len() - 1 - k].clone());
+            if a == b {
+                continue;
+            }
+            let mut steps: Vec<(usize, Action)> = vec![(0, Action::SampleShared), (0, Action::SampleShared)];
+            steps.extend((0..80).map(|_| (1, Action::IterTake(4))));
+            steps.extend((0..80).map(|_| (0, Action::IterTake(4))));
+            steps.extend((0..3).map(|_| (1, Action::SampleShared)));
+            let s = Schedule { cells: vec![a.clone(), b], steps, seed: hseed(&[ctx.seed, k as u64, 0x2A11]) };
+            ctx.eval(1);
+            let o = run_schedule(&s);
+            ctx.nontrivial(hseed(&[crate::rng::hstr(&a.key()), k as u64, 8]));
+            if let Some((sym, msg)) = o.violation {
+                report(ctx, &s, &sym, &msg);
+            }
+        }
+    }
+    // endurance: many samples from one object never change it (Debug / PartialEq / clone equality)
+    let m_end: u64 = if ctx.thorough() { 2_000_000 } else { 100_000 };
+    {
+        use rayon::prelude::*;
+        pool.par_iter().for_each(|cell| {
+            let o = match build(cell) {
+                Ok(o) => o,
+                Err(_) => return,
+            };
+            let before = o.debug();
+            let clone0 = o.clone_box();
+            let mut rng = VRng::from_env(hseed(&[ctx.seed, cell.hash64(), 0xE2D]));
+            rng.budget = u64::MAX;
+            let mut done = 0u64;
+            for _ in 0..m_end {
+                if catch(|| o.sample_v(&mut rng)).is_err() {
+                    break;
+                }
+                done += 1;
+            }
+            ctx.eval(done);
+            ctx.class("endurance_samples", done);
+            let s = Schedule { cells: vec![cell.clone()], steps: vec![], seed: 0 };
+            if o.debug() != before {
+                report(ctx, &s, "object_changed", &format!("{}: Debug output changed after {} samples: {} -> {}", cell.key(), done, before, o.debug()));
+            } else if o.eq_dyn(clone0.as_ref()) == Some(false) {
+                report(ctx, &s, "object_changed", &format!("{}: after {} samples the value no longer equals the clone taken before sampling", cell.key(), done));
+            }
+        });
     }
     for (a, b) in pairs.iter() {
         for order in 0..2 {
